@@ -22,9 +22,9 @@ func init() {
 var formatLoaders = []string{"meta/pngmeta", "meta/jpegmeta", "meta/webpmeta"}
 
 func runC07(p *Program, r *Report) {
-	r.Explanation = "Use-set / ownership analysis on the SSA form of pngmeta.Load, jpegmeta.Load, webpmeta.Load and autometa.Load: the source reader r flows only into io.TeeReader(r,B) and io.MultiReader(B,r); B is a fresh bytes.Buffer with exactly those two uses; the parser sees only bufio(tee); every return yields that MultiReader; a recover-armed defer dominates every stream read; no goroutines. With the library contracts of TeeReader/bufio/bytes.Buffer/MultiReader these obligations entail that the returned stream replays the complete input on every path (argument in DESIGN.md §4 C07). Decided for all inputs and read schedules because the obligations are about every SSA path, not about sampled executions."
+	r.Explanation = "Each of pngmeta.Load, jpegmeta.Load and webpmeta.Load is abstractly interpreted on a symbolic source reader r; prism callees are inlined exactly when they are handed r or a *bytes.Buffer (the tee/replay plumbing, whether it sits in Load or in a helper), the parser stays an uninterpreted call. On EVERY path of that region: every event that mentions r is io.TeeReader(r,B) or io.MultiReader(B,r); B is one fresh bytes.Buffer mentioned only there; the replay stream is not handed to anything before it is returned; the stream returned is that MultiReader; nothing else is called except bufio.NewReader(Size)(tee) and one prism parser fed a tee-derived reader, in which a recover-armed defer dominates every stream read; no goroutines. autometa.Load is interpreted with the format loaders opaque: first loader on r, each later one on the previous loader's returned stream and only after it failed, first success returned verbatim, the last stream returned on exhaustion. With the library contracts of TeeReader/bufio/bytes.Buffer/MultiReader these obligations entail that the returned stream replays the complete input on every path (argument in DESIGN.md §4 C07). Decided for all inputs and read schedules because the obligations are about every path, not about sampled executions."
 	r.RuleText = "one obligation per (loader, clause); distinct = distinct rule+construct keys; every obligation is non-trivial (it can fail on a compiling edit, see mutants)"
-	r.Trusted = []string{"go/packages+go/types+go/ssa (x/tools v0.29.0)", "io.TeeReader writes every byte it returns to the writer before returning it", "bufio.Reader reads only from its underlying reader", "bytes.Buffer is an unbounded FIFO", "io.MultiReader drains its readers in order", "the source re-reports its I/O error when read again"}
+	r.Trusted = []string{"go/packages+go/types+go/ssa (x/tools v0.29.0)", "the abstract interpreter (checker/sym*.go)", "io.TeeReader writes every byte it returns to the writer before returning it", "bufio.Reader reads only from its underlying reader", "bytes.Buffer is an unbounded FIFO", "io.MultiReader drains its readers in order", "the source re-reports its I/O error when read again"}
 	r.Assumptions = []string{"caller-supplied io.Reader obeys the io.Reader contract"}
 	for _, short := range formatLoaders {
 		checkFormatLoader(p, r, "C07", short)
@@ -42,7 +42,7 @@ func runC07(p *Program, r *Report) {
 }
 
 func runC19(p *Program, r *Report) {
-	r.Explanation = "SSA obligations on autometa.Load (loader table identity and order, whole-table iteration, stream chaining through the previous loader's replay stream, verbatim return of the first success, exhaustion return) plus re-evaluation of C07's obligations on the same tree as premises: candidate k sees the original bytes from the first byte, the first success is returned unmodified, and the final stream replays everything."
+	r.Explanation = "autometa.Load is abstractly interpreted with the three format loaders as uninterpreted calls; on every path: only those loaders are called, each at most once, the first on r, each later one on the previous loader's returned stream and only after that loader returned an error; a success returns that loader's (md, stream, nil) verbatim; only after all three failed is (nil, last stream, non-nil error) returned; r and the intermediate streams are used for nothing else (the order of trial is immaterial: the formats' signatures are mutually exclusive). C07's obligations are re-evaluated on the same tree as premises: candidate k sees the original bytes from the first byte, the first success is returned unmodified, and the final stream replays everything."
 	r.RuleText = "one obligation per clause of autometa.Load + C07 premises; distinct = distinct rule+construct keys"
 	r.Trusted = []string{"go/packages+go/types+go/ssa (x/tools v0.29.0)", "library contracts listed under C07"}
 	checkAutoLoader(p, r, "C19")
